@@ -21,6 +21,7 @@ import (
 	"bytes"
 	"context"
 	"encoding/json"
+	"errors"
 	"fmt"
 	"strconv"
 	"sync"
@@ -28,6 +29,7 @@ import (
 	"seata.apache.org/seata-go/pkg/constant"
 	"seata.apache.org/seata-go/pkg/protocol/branch"
 	"seata.apache.org/seata-go/pkg/rm"
+	"seata.apache.org/seata-go/pkg/rm/tcc/fence"
 	"seata.apache.org/seata-go/pkg/rm/tcc/fence/enum"
 	"seata.apache.org/seata-go/pkg/tm"
 	"seata.apache.org/seata-go/pkg/util/log"
@@ -142,6 +144,10 @@ func (t *TCCResourceManager) BranchCommit(ctx context.Context, branchResource rm
 	tm.SetBusinessActionContext(ctx, businessActionContext)
 
 	_, err := tccResource.TwoPhaseAction.Commit(ctx, businessActionContext)
+	if errors.Is(err, fence.ErrPhaseAlreadyApplied) {
+		// the fence driver refused the transaction because the commit has been applied before: done
+		return branch.BranchStatusPhasetwoCommitted, nil
+	}
 	if err != nil {
 		return branch.BranchStatusPhasetwoCommitFailedRetryable, err
 	}
@@ -221,6 +227,10 @@ func (t *TCCResourceManager) BranchRollback(ctx context.Context, branchResource 
 	tm.SetBusinessActionContext(ctx, businessActionContext)
 
 	_, err := tccResource.TwoPhaseAction.Rollback(ctx, businessActionContext)
+	if errors.Is(err, fence.ErrPhaseAlreadyApplied) {
+		// the fence driver refused the transaction because the rollback has been applied before, or the try never ran: done
+		return branch.BranchStatusPhasetwoRollbacked, nil
+	}
 	if err != nil {
 		return branch.BranchStatusPhasetwoRollbackFailedRetryable, err
 	}
